@@ -58,11 +58,15 @@ func NewH265Depacketizer(meta *codec.VideoMeta, w codec.FrameWriter) Depacketize
  */
 func (h265dp *h265Depacketizer) Depacketize(packet *Packet) (err error) {
 	payload := packet.Payload()
-	if len(payload) < 3 {
+	if len(payload) < 2 {
 		return
 	}
 
 	naluType := (payload[0] >> 1) & 0x3f
+	// 只有头部的 NAL（EOS/EOB，2 字节）是合法的单 NAL 包；聚合包和分片包至少 3 字节
+	if len(payload) < 3 && (naluType == hevc.NalStapInRtp || naluType == hevc.NalFuInRtp) {
+		return
+	}
 
 	switch naluType {
 	case hevc.NalStapInRtp: // 在RTP中的聚合（AP）
